@@ -234,3 +234,25 @@ package interp
 //@   exec-ensures [path:!n.child[1].rval.IsValid()] element-at-the-index-operand: isIntKind(nodeKind(n.child[1])) ==> getFrame(f, l).data[i] == rvIndexOp(arrayOf(n.child[0], f), wrapS64(rvInt(operandOf(n.child[1], f))))
 //@   exec-ensures [path:n.fnext!=nil] branch-on-the-element: ret == ite(rvBool(getFrame(f, l).data[i]), tnext, fnext)
 //@   exec-ensures [nopath:n.fnext!=nil] continues: ret == tnext
+
+// range over arrays, slices and strings: the range expression is evaluated ONCE, before the loop, into a
+// hidden slot — a snapshot of the slice header, a copy of an array — and every iteration reads the length
+// and the elements of that snapshot, not of the variable (Go spec, For statements with range clause).
+//@ trusted func genValueRangeArray(n) (r)
+//@   result-fn (f) (v)
+//@   fn-ensures v == rangeCopyOf(n, f)
+//@ func _range(n)
+//@   props C04
+//@   opt gen = true
+//@   opt safety = off
+//@   opt opaque-calls = *
+//@   opt opaque-havoc = none
+//@   opt ignore-contracts = genValueAs
+//@   ints wrap
+//@   exec (f) (ret)
+//@   exec-requires distinct-slots: f != nil && f.data[index0] != f.data[index2] && (len(n.child) == 4 ==> f.data[n.child[1].findex] != f.data[index0] && f.data[n.child[1].findex] != f.data[index2])
+//@   exec-ensures [local:next] range-operand-evaluated-once-into-a-snapshot: !isString(an.typ.TypeOf()) ==> f.data[index2] == rangeCopyOf(an, f)
+//@   exec-ensures [local:next] index-starts-before-the-first-element: rvKind(f.data[index]) == reflect.Int ==> rvInt(f.data[index]) == -1
+//@   exec-ensures [nopath:isString(an.typ.TypeOf());path:len(n.child)==4;nopath:!isString(an.typ.TypeOf())&&len(n.child)==4] value-variable-gets-element-i-of-the-snapshot: ret != fnext ==> rvIface(f.data[index1]) == rvIface(rvIndexOp(old(f.data[index2]), rvInt(f.data[index0])))
+//@   exec-ensures [nopath:isString(an.typ.TypeOf());path:len(n.child)==4;nopath:!isString(an.typ.TypeOf())&&len(n.child)==4] stops-at-the-length-of-the-snapshot: f.data[index2] == old(f.data[index2]) && ret == ite(rvInt(f.data[index0]) >= rvLen(f.data[index2]), fnext, tnext)
+//@   exec-ensures [path:!len(n.child)==4;nopath:!isString(an.typ.TypeOf())&&len(n.child)==4] key-only-form-stops-at-the-length-of-the-snapshot: f.data[index2] == old(f.data[index2]) && ret == ite(rvInt(f.data[index0]) >= rvLen(f.data[index2]), fnext, tnext)
